@@ -188,6 +188,30 @@ func runC14(r *rt.Run, tier string) {
 	// read: several packages open at the same time (shared decoder state shows)
 	concurrent := mode == 0 && !lz && via == "Load" && nloads > 1 && t.Bool(1, 2, "c14.concurrent")
 	var pre []loadOutcome
+	if concurrent && t.Bool(1, 2, "c14.doubleclose") {
+		// an earlier package of this process was closed twice - through the close
+		// function LoadFile returns AND through Deb.Close, which its documentation
+		// allows; that must not leave anything behind for the packages opened later
+		var dcErr error
+		task := r.Solo("double-close", func() {
+			fs := simos.New(r)
+			fs.PutQuiet("/pkgs/earlier.deb", img)
+			simos.Install(fs)
+			defer simos.Install(nil)
+			d, closeFn, err := deb.LoadFile("/pkgs/earlier.deb")
+			if err != nil {
+				dcErr = err
+				return
+			}
+			closeFn()
+			d.Close()
+		})
+		if taskTrouble(r, "C14", "double-close", task) {
+			return
+		}
+		_ = dcErr
+		r.Probe("earlier-package-closed-twice")
+	}
 	if concurrent {
 		r.Probe("loads-interleaved")
 		r.Sticky = t.Draw(3, "sched.sticky")
@@ -330,5 +354,5 @@ func init() {
 		},
 		Assumptions: []string{"kjk/lzma decodes in its own goroutine: for packages with an lzma member the disk runs in quiet mode (no trace events, no EIO) so that the trace stays deterministic", "tar and gzip writers of the Go stdlib and the zstd/lzma encoders of the third-party modules are trusted to produce valid payloads"},
 	})
-	propProbes["C14"] = []string{"fault-on-extra-member", "loads-interleaved", "via-LoadFile", "loaded-repeatedly", "extra-underscore-member"}
+	propProbes["C14"] = []string{"earlier-package-closed-twice", "gzip-member-with-several-streams", "fault-on-extra-member", "loads-interleaved", "via-LoadFile", "loaded-repeatedly", "extra-underscore-member"}
 }
